@@ -48,6 +48,7 @@ type crashOut struct {
 	Images      int            `json:"images"`
 	TornOffsets int            `json:"torn_offsets"`
 	Checks      int            `json:"checks"`
+	Missing     int            `json:"images_missing"`
 	Divergences []crashDiv     `json:"divergences"`
 	Errors      []string       `json:"errors"`
 	PointCounts map[string]int `json:"point_counts"`
@@ -152,11 +153,17 @@ func stripProbe(o map[string]any) map[string]any {
 // checkImage opens a crash image and checks: Open succeeds; the projection is one of the admissible
 // ones; opening the repaired directory again changes nothing; writing more and restarting loses nothing.
 func checkImage(live *eng.Runner, img, id, point string, admissible []map[string]any, res *crashOut) {
-	res.Images++
-	res.PointCounts[point]++
 	if _, err := os.Stat(img); err != nil {
+		// the hook point was never reached: an image that does not exist must not count as checked. Calls that
+		// are refused or do not journal never reach op.journaled; every other point must be reached.
+		res.Missing++
+		if point != "op.journaled" {
+			res.Errors = append(res.Errors, fmt.Sprintf("%s: no image was taken at %s (hook not reached)", id, point))
+		}
 		return
 	}
+	res.Images++
+	res.PointCounts[point]++
 	defer os.RemoveAll(img)
 	c, err := live.CloneAt(img)
 	if err != nil {
@@ -346,7 +353,9 @@ func runCrashCase(p eng.Profile, c crashCase, tornAll bool, res *crashOut) {
 			copyDir(live.Dir, img(name))
 		}
 	}
+	verifhook.Set(verifhook.Handler(live.ExtraHook))
 	serr := live.E.SaveSnapshot()
+	verifhook.Set(nil)
 	live.ExtraHook = nil
 	if serr != nil {
 		res.Errors = append(res.Errors, c.ID+": SaveSnapshot: "+serr.Error())
@@ -371,7 +380,9 @@ func runCrashCase(p eng.Profile, c crashCase, tornAll bool, res *crashOut) {
 			copyDir(live2.Dir, img(name))
 		}
 	}
+	verifhook.Set(verifhook.Handler(live2.ExtraHook))
 	rerr := live2.E.RewriteAOF()
+	verifhook.Set(nil)
 	live2.ExtraHook = nil
 	if rerr != nil {
 		res.Errors = append(res.Errors, c.ID+": RewriteAOF: "+rerr.Error())
